@@ -63,6 +63,45 @@ func (p c05) RunBatch(ctx *core.Ctx, batch int) {
 			p.checkTree(ctx, sp.At(i), r, true)
 		}
 	case batch == nEnum:
+		// long queries: grouping must not depend on the number of clauses
+		lf := []*qt.Node{qt.F("f", qt.Word("v")), qt.T(qt.Word("a")), qt.Cmp("n", ">", qt.Int(4)), qt.Range("n", qt.Int(1), qt.Int(5), true), qt.List("s", qt.Word("x"), qt.Word("y"))}
+		for _, n := range []int{10, 40, 64, 70, 100, 200, 400} {
+			for variant := 0; variant < 4; variant++ {
+				var t *qt.Node
+				switch variant {
+				case 0, 1: // left-associative chain
+					op := qt.Or
+					if variant == 1 {
+						op = qt.And
+					}
+					t = lf[0]
+					for i := 1; i < n; i++ {
+						t = op(t, lf[i%len(lf)])
+					}
+				default: // balanced alternating AND/OR tree
+					var build func(lo, hi, d int) *qt.Node
+					build = func(lo, hi, d int) *qt.Node {
+						if hi-lo == 1 {
+							return lf[(lo+variant)%len(lf)]
+						}
+						mid := (lo + hi) / 2
+						if d%2 == 0 {
+							return qt.And(build(lo, mid, d+1), build(mid, hi, d+1))
+						}
+						return qt.Or(build(lo, mid, d+1), build(mid, hi, d+1))
+					}
+					t = build(0, n, variant)
+				}
+				for _, st := range []struct {
+					name string
+					st   qt.Style
+				}{{"minimal", qt.Style{}}, {"full", qt.Style{FullParens: true}}} {
+					text := qt.Print(t, st.st)
+					ctx.Case(fmt.Sprintf("%d clauses, variant %d, %s", n, variant, st.name), func() { c05Compare(ctx, "long-"+st.name, text, t) })
+					ctx.Count("long_queries", 1)
+				}
+			}
+		}
 		for _, nc := range c05Named {
 			ctx.Case(nc.text, func() {
 				c05Compare(ctx, "named", nc.text, nc.tree)
